@@ -106,6 +106,8 @@ type note struct {
 
 // Task is one goroutine under the simulator's control.
 type Task struct {
+	ended   bool
+	endedAt time.Duration
 	id    int
 	name  string
 	s     *Sim
